@@ -15,18 +15,31 @@
         let j: u32 = kani::any(); kani::assume(j < 64);
         if n == 1usize << j { assert!(n.is_power_of_two()); }
     }
-    // bloom_codec / bloom_core: u64::div_ceil(a, b) == (a + b - 1) / b over the integers (b > 0); q = floor(x / b) <==> q*b <= x < (q+1)*b
+    // bloom_codec / bloom_core / theta_codec: {u64,usize,u32}::div_ceil(a, b) == (a + b - 1) / b over the integers (b > 0).
+    // (1) complete, every a and b: div_ceil is a / b rounded up: a / b + (1 if a % b != 0).  The step from there to (a + b - 1) / b is a
+    //     pure integer-arithmetic identity (no std content).  A direct full-domain check of r*b <= a+b-1 < (r+1)*b needs the equivalence
+    //     of two 64-bit multiplier circuits: no verdict in 10 min (u32) / 10 min (u64), so it is NOT claimed.
     #[kani::proof]
-    fn shim_div_ceil_u32() {
+    fn shim_div_ceil_def() {
+        let a: u64 = kani::any(); let b: u64 = kani::any(); kani::assume(b > 0);
+        assert!(a.div_ceil(b) == a / b + (if a % b != 0 { 1 } else { 0 }));
+        let a: usize = kani::any(); let b: usize = kani::any(); kani::assume(b > 0);
+        assert!(a.div_ceil(b) == a / b + (if a % b != 0 { 1 } else { 0 }));
         let a: u32 = kani::any(); let b: u32 = kani::any(); kani::assume(b > 0);
-        let r = a.div_ceil(b);
-        assert!((r as u64) == ((a as u64) + (b as u64) - 1) / (b as u64));
+        assert!(a.div_ceil(b) == a / b + (if a % b != 0 { 1 } else { 0 }));
+    }
+    // (2) the contract itself, r == (a + b - 1) / b in wide arithmetic, for every a and every divisor b <= 255
+    #[kani::proof]
+    fn shim_div_ceil_u64_small_divisor() {
+        let a: u64 = kani::any(); let b: u8 = kani::any(); kani::assume(b > 0);
+        let r = a.div_ceil(b as u64) as u128; let x = (a as u128) + (b as u128) - 1;
+        assert!(r * (b as u128) <= x && x < (r + 1) * (b as u128));
     }
     #[kani::proof]
-    fn shim_div_ceil_u64() {
-        let a: u64 = kani::any(); let b: u64 = kani::any(); kani::assume(b > 0);
-        let r = a.div_ceil(b) as u128; let x = (a as u128) + (b as u128) - 1;
-        assert!(r * (b as u128) <= x && x < (r + 1) * (b as u128));
+    fn shim_div_ceil_u32_small_divisor() {
+        let a: u32 = kani::any(); let b: u8 = kani::any(); kani::assume(b > 0);
+        let r = a.div_ceil(b as u32) as u64; let x = (a as u64) + (b as u64) - 1;
+        assert!(r * (b as u64) <= x && x < (r + 1) * (b as u64));
     }
     // the divisor of every call site is the constant 64 (bloom: num_bits.div_ceil(64)); theta_codec: usize::div_ceil(_, 8) / u32::div_ceil(_, 8)
     #[kani::proof]
@@ -91,31 +104,33 @@
         let i: usize = kani::any(); kani::assume(i < 6);
         assert!(if i < n { a[i] == before[n - 1 - i] } else { a[i] == before[i] });
     }
-    // theta_sketch (assume_specification <[T]>::sort_unstable, T = u64): permutation + ascending
-    #[kani::proof]
-    #[kani::unwind(7)]
-    fn shim_sort_unstable_u64() {
-        let mut a: [u64; 5] = kani::any(); let n: usize = kani::any(); kani::assume(n <= 5);
-        let before = a; let w: u64 = kani::any();
-        a[..n].sort_unstable();
+    // theta_sketch (assume_specification <[T]>::sort_unstable, T = u64): permutation + ascending.  The slice length is CONCRETE in each case
+    // (0..=6): with a symbolic length CBMC symbolically executes the whole pattern-defeating quicksort (no verdict in 10 min).
+    fn sort_unstable_case<const N: usize>() {
+        let mut a: [u64; N] = kani::any(); let before = a; let w: u64 = kani::any();
+        a.sort_unstable();
         let mut c0 = 0; let mut c1 = 0; let mut i = 0;
-        while i < n { if before[i] == w { c0 += 1; } if a[i] == w { c1 += 1; } if i + 1 < n { assert!(a[i] <= a[i + 1]); } i += 1; }
+        while i < N { if before[i] == w { c0 += 1; } if a[i] == w { c1 += 1; } if i + 1 < N { assert!(a[i] <= a[i + 1]); } i += 1; }
         assert!(c0 == c1);
-        let j: usize = kani::any(); kani::assume(n <= j && j < 5); assert!(a[j] == before[j]);
+    }
+    #[kani::proof]
+    #[kani::unwind(8)]
+    fn shim_sort_unstable_u64() {
+        sort_unstable_case::<0>(); sort_unstable_case::<1>(); sort_unstable_case::<2>(); sort_unstable_case::<3>();
+        sort_unstable_case::<4>(); sort_unstable_case::<5>(); sort_unstable_case::<6>();
     }
     // theta_table / fi_map (assume_specification <[T]>::select_nth_unstable, T = u64): |left| == index, left ++ [kth] ++ right is a permutation
-    // of the input, left <= kth <= right elementwise, and (fi_map clause) the slice afterwards IS left ++ [kth] ++ right
-    #[kani::proof]
-    #[kani::unwind(7)]
-    fn shim_select_nth_unstable() {
-        let mut a: [u64; 5] = kani::any(); let n: usize = kani::any(); kani::assume(1 <= n && n <= 5);
-        let idx: usize = kani::any(); kani::assume(idx < n);
+    // of the input, left <= kth <= right elementwise, and (fi_map clause) the slice afterwards IS left ++ [kth] ++ right.
+    // Concrete lengths 1..=5, every index.
+    fn select_nth_case<const N: usize>() {
+        let mut a: [u64; N] = kani::any();
+        let idx: usize = kani::any(); kani::assume(idx < N);
         let before = a; let w: u64 = kani::any();
-        let mut parts = [0u64; 5]; let mut c1 = 0;
+        let mut parts = [0u64; N]; let mut c1 = 0;
         {
-            let (l, m, r) = a[..n].select_nth_unstable(idx);
+            let (l, m, r) = a.select_nth_unstable(idx);
             assert!(l.len() == idx);
-            assert!(l.len() + 1 + r.len() == n);
+            assert!(l.len() + 1 + r.len() == N);
             let mut i = 0;
             while i < l.len() { assert!(l[i] <= *m); if l[i] == w { c1 += 1; } parts[i] = l[i]; i += 1; }
             if *m == w { c1 += 1; } parts[idx] = *m;
@@ -123,9 +138,12 @@
             while i < r.len() { assert!(*m <= r[i]); if r[i] == w { c1 += 1; } parts[idx + 1 + i] = r[i]; i += 1; }
         }
         let mut c0 = 0; let mut i = 0;
-        while i < n { if before[i] == w { c0 += 1; } assert!(a[i] == parts[i]); i += 1; }
+        while i < N { if before[i] == w { c0 += 1; } assert!(a[i] == parts[i]); i += 1; }
         assert!(c0 == c1);
     }
+    #[kani::proof]
+    #[kani::unwind(7)]
+    fn shim_select_nth_unstable() { select_nth_case::<1>(); select_nth_case::<2>(); select_nth_case::<3>(); select_nth_case::<4>(); select_nth_case::<5>(); }
     // hash_xxh64: <[T]>::chunks_exact(32) / ChunksExact::next / ChunksExact::remainder with the ghost state ce_rest (= the not yet yielded
     // suffix) and ce_size: next() yields the first ce_size elements of ce_rest while |ce_rest| >= ce_size, then None (ce_rest unchanged);
     // remainder() == ce_rest once |ce_rest| < ce_size.  Sub-slices are compared by (pointer, length): identity, stronger than equal contents.
